@@ -58,3 +58,120 @@ pub open spec fn all_valid(a: &Allocator, s: Seq<NodePtr>) -> bool {
 pub open spec fn guards_le(g: Seq<SoftforkGuard>, bound: u64) -> bool {
     forall|i: int| 0 <= i < g.len() ==> (#[trigger] g[i]).expected_cost <= bound
 }
+
+// ---------------------------------------------------------------------------------------------
+// Operator slots: for every pending Apply, the value-stack slot that will hold its operator
+// (two below the top when the Apply runs) holds an ATOM as soon as it is filled.  This is the
+// precondition of Dialect::op (ChiaDialect::op calls atom_len on the operator, which panics on a
+// pair); eval_pair's "((X) ...) must be a lone atom" check and eval_op_atom's atom operator are
+// what establish it.  `vals` is the value count at the time the top operation runs.
+// ---------------------------------------------------------------------------------------------
+pub open spec fn opatoms(ops: Seq<Operation>, vals: int, vs: Seq<NodePtr>) -> bool
+    decreases ops.len(),
+{
+    if ops.len() == 0 {
+        true
+    } else {
+        let rest = ops.drop_last();
+        match ops.last() {
+            Operation::Apply => (0 <= vals - 2 < vs.len() ==> vs[vals - 2].tag() != 0) && opatoms(rest, vals - 1, vs),
+            Operation::Cons => opatoms(rest, vals - 1, vs),
+            Operation::SwapEval => opatoms(rest, vals - 1, vs),
+            Operation::ExitGuard => opatoms(rest, vals, vs),
+            Operation::RestoreAllocator => opatoms(rest, vals, vs),
+        }
+    }
+}
+
+pub proof fn lemma_oa_push_op(ops: Seq<Operation>, op: Operation, vals: int, vs: Seq<NodePtr>)
+    ensures
+        opatoms(ops.push(op), vals, vs) == (match op {
+            Operation::Apply => (0 <= vals - 2 < vs.len() ==> vs[vals - 2].tag() != 0) && opatoms(ops, vals - 1, vs),
+            Operation::Cons => opatoms(ops, vals - 1, vs),
+            Operation::SwapEval => opatoms(ops, vals - 1, vs),
+            Operation::ExitGuard => opatoms(ops, vals, vs),
+            Operation::RestoreAllocator => opatoms(ops, vals, vs),
+        }),
+{
+    assert(ops.push(op).drop_last() =~= ops);
+    assert(ops.push(op).last() == op);
+}
+
+pub proof fn lemma_oa_pop_op(ops: Seq<Operation>, vals: int, vs: Seq<NodePtr>)
+    requires
+        ops.len() > 0,
+    ensures
+        opatoms(ops, vals, vs) == (match ops.last() {
+            Operation::Apply => (0 <= vals - 2 < vs.len() ==> vs[vals - 2].tag() != 0) && opatoms(ops.drop_last(), vals - 1, vs),
+            Operation::Cons => opatoms(ops.drop_last(), vals - 1, vs),
+            Operation::SwapEval => opatoms(ops.drop_last(), vals - 1, vs),
+            Operation::ExitGuard => opatoms(ops.drop_last(), vals, vs),
+            Operation::RestoreAllocator => opatoms(ops.drop_last(), vals, vs),
+        }),
+{
+}
+
+/// pushing a value keeps the operator slots: the new slot is either an atom or not an operator slot
+pub proof fn lemma_oa_push_val(ops: Seq<Operation>, vals: int, vs: Seq<NodePtr>, x: NodePtr)
+    requires
+        opatoms(ops, vals, vs),
+        x.tag() != 0 || vs.len() >= vals - 1,
+    ensures
+        opatoms(ops, vals, vs.push(x)),
+    decreases ops.len(),
+{
+    if ops.len() > 0 {
+        let rest = ops.drop_last();
+        let vs2 = vs.push(x);
+        match ops.last() {
+            Operation::Apply => {
+                lemma_oa_push_val(rest, vals - 1, vs, x);
+                if 0 <= vals - 2 < vs2.len() {
+                    if vals - 2 < vs.len() {
+                        assert(vs2[vals - 2] == vs[vals - 2]);
+                    } else {
+                        assert(vs2[vals - 2] == x);
+                    }
+                }
+            },
+            Operation::Cons => { lemma_oa_push_val(rest, vals - 1, vs, x); },
+            Operation::SwapEval => { lemma_oa_push_val(rest, vals - 1, vs, x); },
+            Operation::ExitGuard => { lemma_oa_push_val(rest, vals, vs, x); },
+            Operation::RestoreAllocator => { lemma_oa_push_val(rest, vals, vs, x); },
+        }
+    }
+}
+
+/// popping a value only forgets a slot
+pub proof fn lemma_oa_pop_val(ops: Seq<Operation>, vals: int, vs: Seq<NodePtr>)
+    requires
+        opatoms(ops, vals, vs),
+        vs.len() > 0,
+    ensures
+        opatoms(ops, vals, vs.drop_last()),
+    decreases ops.len(),
+{
+    if ops.len() > 0 {
+        let rest = ops.drop_last();
+        let vs2 = vs.drop_last();
+        match ops.last() {
+            Operation::Apply => {
+                lemma_oa_pop_val(rest, vals - 1, vs);
+                if 0 <= vals - 2 < vs2.len() {
+                    assert(vs2[vals - 2] == vs[vals - 2]);
+                }
+            },
+            Operation::Cons => { lemma_oa_pop_val(rest, vals - 1, vs); },
+            Operation::SwapEval => { lemma_oa_pop_val(rest, vals - 1, vs); },
+            Operation::ExitGuard => { lemma_oa_pop_val(rest, vals, vs); },
+            Operation::RestoreAllocator => { lemma_oa_pop_val(rest, vals, vs); },
+        }
+    }
+}
+
+/// a smaller count only moves the slots down: needed when an operation consumes values
+pub proof fn lemma_oa_empty(vals: int, vs: Seq<NodePtr>)
+    ensures
+        opatoms(Seq::<Operation>::empty(), vals, vs),
+{
+}
